@@ -8,6 +8,7 @@ from .. import lib, oracles, ref
 from ..ref import Graph
 
 LEVEL = "exploration"
+TECHNIQUE = 'runtime monitoring: return/raise monitor on find_shortest_path judged by a BFS reference model; exhaustive over every graph with <=12 lattice edges x every ordered cell pair, adversarial and random larger graphs, plus all library-internal solver calls'
 RULE = ("find_shortest_path(s, e) judged against BFS on an adjacency-set model: (1) exhaustively every connection structure on "
         "every grid with <= 12 lattice edges (1x1..1x7, 2x2, 2x3, 3x2, 2x4, 4x2, 3x3) x every ordered cell pair; (2) random trees, "
         "cyclic, percolation and A*-hostile shapes on larger square/oblong grids with sampled pairs (tuple and array arguments); "
